@@ -348,6 +348,7 @@ func RuleJSON(r *Report, p *Program) {
 	r.Rule("J3", "numeric task-type bounds agree with the 13-entry task table in both parsers", 2)
 	r.Rule("J4", "every text a reader accepts maps to the value whose writer emits that text (control states, weekday names)", 2)
 	r.Rule("J5", "a decoder that stores into a map reached through its receiver first makes sure the map is not nil", 2)
+	r.Rule("J8", "a JSON decoder of a map type stores the decoded entries into the map its receiver holds on return (allocated and assigned first when that was nil)", 2)
 	tps := namedTypes(p, "types")
 	for _, nt := range tps {
 		mj := methodOf(p, nt, "MarshalJSON")
@@ -478,6 +479,7 @@ func RuleJSON(r *Report, p *Program) {
 	ruleControlState(r, p)
 	ruleWeekdays(r, p)
 	ruleNilMaps(r, p)
+	ruleMapReceivers(r, p)
 }
 
 func lookupNamed(p *Program, rel, name string) *types.Named {
@@ -776,6 +778,55 @@ func ruleNilMaps(r *Report, p *Program) {
 			continue
 		}
 		r.Check(bad == "", "J5", name, p.Pos(fn.Pos()), "non-nil established before every store", bad)
+	}
+}
+
+// J8: what a successful decode writes, it writes into the receiver's map
+func ruleMapReceivers(r *Report, p *Program) {
+	for _, fn := range p.AllFuncs {
+		if fn.Pkg != p.SSAPkg("types") || fn.Name() != "UnmarshalJSON" || fn.Signature.Recv() == nil {
+			continue
+		}
+		pt, ok := fn.Params[0].Type().Underlying().(*types.Pointer)
+		if !ok {
+			continue
+		}
+		if _, isMap := pt.Elem().Underlying().(*types.Map); !isMap {
+			continue
+		}
+		name := calleeName(fn)
+		tp := p.SSAPkg("types")
+		paths := walkSimple(p, fn, []string{"m", "in"}, inlineHelpers([]*ssa.Package{tp}, func(f *ssa.Function) bool { return f.Object() != nil && (f.Object().Exported() || f.Signature.Recv() != nil) }))
+		bad := ""
+		n := 0
+		for _, pa := range paths {
+			if pa.Outcome != "return" || len(pa.Results) != 1 || errNilness(pa, pa.Results[0]) != 1 {
+				continue
+			}
+			if v, has := pa.State.Bools["isnil(m)"]; has && v {
+				continue // decoding into a nil pointer: nothing to fill
+			}
+			var final *Term
+			for _, c := range pa.SymCells {
+				if c.Name == "m" {
+					final = c.Val
+				}
+			}
+			n++
+			for _, mv := range pa.Maps {
+				if len(mv.Args) > 0 && types.Identical(mv.Typ, pt.Elem()) && mv != final {
+					bad = "the decoded entries are stored in a map that the receiver does not hold when the decoder returns: decoding into a zero-valued (nil) variable silently yields nothing"
+				}
+			}
+			for _, e := range pa.Events {
+				if e.Kind == "mapupdate" && types.Identical(e.Args[0].Typ, pt.Elem()) {
+					if final == nil || e.Args[0].String() != final.String() {
+						bad = "entries are stored into " + cut(e.Args[0].String(), 60) + ", which is not the map the receiver holds when the decoder returns (" + p.Pos(e.Pos) + ")"
+					}
+				}
+			}
+		}
+		r.Check(bad == "" && n > 0, "J8", name, p.Pos(fn.Pos()), fmt.Sprintf("%d successful paths", n), bad)
 	}
 }
 
